@@ -161,7 +161,7 @@ structure RecordPlan where
 def recordPlan (s : State) (sender : String) (tenant : Nat) (req : Str) (amount : Option Int) (denom chain contract token : Str) : Option RecordPlan := do
   let _ ← decodeAcc sender
   let a ← amount
-  check (recordBasic amount denom contract token)
+  check (recordBasic amount denom contract token && validUtf8 req)
   check (isAdmin s.st.tenants tenant sender)
   let t ← findTenant s.st.tenants tenant
   check (t.denom == denom && t.period != 0)
